@@ -108,6 +108,7 @@ func checkC06(c *Ctx) {
 	alternatingReads(c, "C06")
 	gatedDecrypt(c, "C06")
 	failingSource(c, "C06")
+	timeoutInsideFrame(c, "C06")
 	sourceReuse(c, "C06")
 	c03Rekey(c)    // a second pair-verify on an encrypted connection (reads and writes change keys at the right moment)
 	c03Handover(c) // reads that are waiting while the first cryptographer is negotiated
